@@ -79,6 +79,21 @@ func g4StrsAny(ss []string) []any {
 	return out
 }
 
+// crontab: every schedule binding has a crontab of its own (bindings may share a name, the crontab tells
+// whose tick it is): the j-th schedule binding of the hook ticks on "* * * * *" (j = 0) or "*/<j+1> * * * *".
+func (s *c09Spec) crontab(i int) string {
+	j := 0
+	for _, o := range s.Others[:i] {
+		if o.Kind == "schedule" {
+			j++
+		}
+	}
+	if j == 0 {
+		return "* * * * *"
+	}
+	return fmt.Sprintf("*/%d * * * *", j+1)
+}
+
 // configJSON renders the hook configuration the way a hook prints it for --config.
 func (s *c09Spec) configJSON() []byte {
 	cfg := map[string]any{}
@@ -125,8 +140,11 @@ func (s *c09Spec) configJSON() []byte {
 		}
 		kbs = append(kbs, m)
 	}
-	for _, o := range s.Others {
+	for i, o := range s.Others {
 		m := map[string]any{"name": o.Name}
+		if o.Kind == "schedule" && o.Name == "schedule" {
+			delete(m, "name") // an unnamed binding: the loader calls it "schedule"
+		}
 		if o.Group != "" {
 			m["group"] = o.Group
 		}
@@ -135,7 +153,7 @@ func (s *c09Spec) configJSON() []byte {
 		}
 		switch o.Kind {
 		case "schedule":
-			m["crontab"] = "* * * * *"
+			m["crontab"] = s.crontab(i)
 			if s.Version == "v0" {
 				delete(m, "group")
 				delete(m, "includeSnapshotsFrom")
@@ -198,7 +216,9 @@ type c09Env struct {
 	seq    int
 }
 
-// c09SameNames: do two bindings of one type share a name (getIncludeSnapshotsFrom / SnapshotsFor look up by name)?
+// c09SameNames: do two kubernetes bindings share a name (SnapshotsFor looks a monitor up by binding name)?
+// This is the class of the recorded finding. Schedule / conversion bindings sharing a name are not in it:
+// their contexts carry the include list of their own binding (c09SharedNames, generated on purpose).
 func c09SameNames(s *c09Spec) bool {
 	seen := map[string]bool{}
 	for _, b := range s.KBs {
@@ -207,13 +227,21 @@ func c09SameNames(s *c09Spec) bool {
 		}
 		seen["k/"+b.Name] = true
 	}
-	for _, o := range s.Others {
-		if seen[o.Kind+"/"+o.Name] {
-			return true
-		}
-		seen[o.Kind+"/"+o.Name] = true
-	}
 	return false
+}
+
+// c09SharedNames: the kinds (schedule, conversion) in which two bindings share a name.
+func c09SharedNames(s *c09Spec) []string {
+	seen, out := map[string]bool{}, []string{}
+	for _, o := range s.Others {
+		k := o.Kind + "/" + o.Name
+		if seen[k] && !seen["!"+o.Kind] {
+			out = append(out, o.Kind)
+			seen["!"+o.Kind] = true
+		}
+		seen[k] = true
+	}
+	return out
 }
 
 func g4OptStr(s string) string {
@@ -232,7 +260,10 @@ func c09Start(r *Run, c *Case, spec *c09Spec) *c09Env {
 	_ = writeScript(script, []byte("#!/bin/bash\ncat \"$BINDING_CONTEXT_PATH\" > \"$0.out\"\n"), 0o755)
 
 	if c09SameNames(spec) {
-		c.Known = "same-name-bindings" // classifier of the recorded finding: two bindings of one type share a name
+		c.Known = "same-name-bindings" // classifier of the recorded finding: two kubernetes bindings share a name
+	}
+	for _, k := range c09SharedNames(spec) {
+		c.Note("shared-name:" + k)
 	}
 	c.Op(fmt.Sprintf("hook version=%s", spec.Version), "ok")
 	for _, b := range spec.KBs {
@@ -547,16 +578,26 @@ func (e *c09Env) mkOnStartup() {
 	e.add("onStartup", []bctx.BindingContext{bc}, htypes.OnStartup, "mk onStartup")
 }
 
-func (e *c09Env) mkSchedule(name string) {
+// obIndex: position of the first binding of that kind and name among the `ob` lines.
+func (e *c09Env) obIndex(kind, name string) int {
+	for i, o := range e.spec.Others {
+		if o.Kind == kind && o.Name == name {
+			return i
+		}
+	}
+	return -1
+}
+
+// mkSchedule: the tick of the i-th `ob` binding (a schedule binding), told by its own crontab.
+func (e *c09Env) mkSchedule(i int) {
 	var bcs []bctx.BindingContext
-	if e.hc.CanHandleScheduleEvent("* * * * *") {
-		e.hc.HandleScheduleEvent("* * * * *", func(info controller.BindingExecutionInfo) {
-			if info.Binding == name {
-				bcs = append(bcs, info.BindingContext...)
-			}
+	tab := e.spec.crontab(i)
+	if e.hc.CanHandleScheduleEvent(tab) {
+		e.hc.HandleScheduleEvent(tab, func(info controller.BindingExecutionInfo) {
+			bcs = append(bcs, info.BindingContext...)
 		})
 	}
-	e.add("schedule", bcs, htypes.Schedule, "mk schedule "+name)
+	e.add("schedule", bcs, htypes.Schedule, fmt.Sprintf("mk schedule %s %d", e.spec.Others[i].Name, i))
 }
 
 func (e *c09Env) mkAdmission(kind, name, uid string) {
@@ -584,10 +625,12 @@ func (e *c09Env) mkAdmission(kind, name, uid string) {
 			bcs = append(bcs, info.BindingContext...)
 		})
 	}
-	e.add(kind, bcs, bt, fmt.Sprintf("mk %s %s %s", kind, name, uid))
+	e.add(kind, bcs, bt, fmt.Sprintf("mk %s %s %s %d", kind, name, uid, e.obIndex(kind, name)))
 }
 
-func (e *c09Env) mkConversion(name, from, to, uid string) {
+// mkConversion: a request for the rule of the i-th `ob` binding (a conversion binding).
+func (e *c09Env) mkConversion(i int, uid string) {
+	name, from, to := e.spec.Others[i].Name, e.spec.Others[i].From, e.spec.Others[i].To
 	req := &apixv1.ConversionRequest{UID: types.UID(uid), DesiredAPIVersion: to}
 	rule := conversion.Rule{FromVersion: from, ToVersion: to}
 	var bcs []bctx.BindingContext
@@ -596,7 +639,7 @@ func (e *c09Env) mkConversion(name, from, to, uid string) {
 			bcs = append(bcs, info.BindingContext...)
 		})
 	}
-	e.add("conversion", bcs, htypes.KubernetesConversion, fmt.Sprintf("mk conversion %s %s", name, uid))
+	e.add("conversion", bcs, htypes.KubernetesConversion, fmt.Sprintf("mk conversion %s %s %d", name, uid, i))
 }
 
 // g4CanonContexts: parse the file, replace review objects by their uid, print canonically.
@@ -665,6 +708,17 @@ func (e *c09Env) run(idx []int) {
 	e.c.Op("run "+joinInts(idx), ans)
 	if strings.HasPrefix(ans, "json=") {
 		e.c.Oracle("run " + joinInts(idx) + " " + strings.TrimPrefix(ans, "json="))
+		// the clause "`snapshots` is present exactly when the binding includes snapshots", item by item
+		var items []map[string]any
+		if json.Unmarshal([]byte(strings.TrimPrefix(ans, "json=")), &items) == nil {
+			bits := make([]int, len(items))
+			for i, it := range items {
+				if _, has := it["snapshots"]; has {
+					bits[i] = 1
+				}
+			}
+			e.c.Oracle("snapshots " + joinInts(idx) + " " + joinInts(bits))
+		}
 	} else {
 		e.c.Oracle("run " + joinInts(idx) + " " + strings.Fields(ans)[0])
 	}
@@ -788,7 +842,7 @@ func c09RawObj(ns, name string, replicas, a any) map[string]any {
 }
 
 func runC09(r *Run) {
-	r.Rule = "per case: one hook configuration (configVersion v1 or v0) rendered as JSON and loaded by the real loader: 1-3 kubernetes bindings (jq filter of the fragment: object/array/scalar/string/null results, string literals and object leaves whose content is itself a JSON text (3, true, null, an object, a quoted string), or none; 30% of the filters read through a leaf value and fail on some object states - such a state never exists before Synchronization and is followed at once, without a render, by the delete of the object (whose Deleted item is rendered) or by an update every filter accepts; keepFullObjectsInMemory on/off; group; includeSnapshotsFrom incl. self-include; executeHookOnEvent subset; one of two namespaces), optional onStartup, schedule, kubernetesValidating, kubernetesMutating, kubernetesCustomResourceConversion bindings with group / includeSnapshotsFrom; real monitors on kube-client/fake; 0-3 objects before Synchronization, then 2-7 creates/updates/deletes through the dynamic tracker; every Synchronization/Event context the controllers produce plus schedule/admission/conversion/onStartup contexts is rendered alone and in combined arrays (2-4 contexts) through the real Hook.Run (file read back from a real bash hook) or ConvertBindingContextList(...).Json(). A case is non-trivial when it renders >= 3 context lists and at least one Event and one snapshot-carrying context; distinct = distinct op-line sequences."
+	r.Rule = "per case: one hook configuration (configVersion v1 or v0) rendered as JSON and loaded by the real loader: 1-3 kubernetes bindings (jq filter of the fragment: object/array/scalar/string/null results, string literals and object leaves whose content is itself a JSON text (3, true, null, an object, a quoted string), or none; 30% of the filters read through a leaf value and fail on some object states - such a state never exists before Synchronization and is followed at once, without a render, by the delete of the object (whose Deleted item is rendered) or by an update every filter accepts; keepFullObjectsInMemory on/off; group; includeSnapshotsFrom incl. self-include; executeHookOnEvent subset; one of two namespaces), optional onStartup, 0-3 schedule bindings (each with a crontab of its own; names from a small pool incl. unnamed, so that bindings of one type often share a name while only some of them include snapshots), kubernetesValidating, kubernetesMutating, 0-2 kubernetesCustomResourceConversion bindings (two rules, mostly one name) with group / includeSnapshotsFrom; real monitors on kube-client/fake; 0-3 objects before Synchronization, then 2-7 creates/updates/deletes through the dynamic tracker; every Synchronization/Event context the controllers produce plus schedule/admission/conversion/onStartup contexts is rendered alone and in combined arrays (2-4 contexts) through the real Hook.Run (file read back from a real bash hook) or ConvertBindingContextList(...).Json(). A case is non-trivial when it renders >= 3 context lists and at least one Event and one snapshot-carrying context; distinct = distinct op-line sequences."
 
 	// ---- corpus: the counterexamples of the repaired defects
 	corpus := []struct {
@@ -988,6 +1042,65 @@ func runC09(r *Run) {
 		})
 	}
 
+	// ---- bindings of one type sharing a name (every unnamed schedule binding is called "schedule"): the
+	//      by-name fallback of UpdateSnapshots fills the Snapshots map of a context whose own include list
+	//      is empty from the first binding of that name; `snapshots` must follow the binding's own list
+	shared := []struct {
+		desc   string
+		group  string
+		others []c09OtherB
+	}{
+		{"two unnamed schedule bindings, only the first has includeSnapshotsFrom", "",
+			[]c09OtherB{{Kind: "schedule", Name: "schedule", Inc: []string{"k1"}}, {Kind: "schedule", Name: "schedule"}}},
+		{"two unnamed schedule bindings, only the second has includeSnapshotsFrom", "",
+			[]c09OtherB{{Kind: "schedule", Name: "schedule"}, {Kind: "schedule", Name: "schedule", Inc: []string{"k1"}}}},
+		{"two schedule bindings named s1, the first in the group of the kubernetes binding, the second plain", "g1",
+			[]c09OtherB{{Kind: "schedule", Name: "s1", Group: "g1"}, {Kind: "schedule", Name: "s1"}, {Kind: "schedule", Name: "s2", Inc: []string{"k1"}}}},
+		{"two conversion bindings named conv1 (two rules), only the first has includeSnapshotsFrom", "",
+			[]c09OtherB{{Kind: "conversion", Name: "conv1", Inc: []string{"k1"}, From: "v1", To: "v2"}, {Kind: "conversion", Name: "conv1", From: "v2", To: "v3"}}},
+	}
+	for i, cc := range shared {
+		cc := cc
+		r.One(14+i, func(c *Case, _ *Rng) {
+			c.Desc = "corpus: bindings sharing a name: " + cc.desc
+			c.Nontrivial = true
+			ns := fmt.Sprintf("c09-%d-a", c.Idx)
+			spec := &c09Spec{Version: "v1", KBs: []c09KB{{Name: "k1", NS: ns, Keep: true, Group: cc.group}}, Others: cc.others}
+			e := c09Start(r, c, spec)
+			defer e.close()
+			if e == nil {
+				return
+			}
+			if !e.change("put", ns, "o1", c08Obj(ns, "o1", 1, "x", 0)) || !e.sync() {
+				return
+			}
+			for i, o := range spec.Others {
+				if o.Kind == "schedule" {
+					e.mkSchedule(i)
+				} else {
+					e.mkConversion(i, fmt.Sprintf("uid-%d", i))
+				}
+			}
+			if !e.change("put", ns, "o2", c08Obj(ns, "o2", 2, "y", 0)) {
+				return
+			}
+			n := len(e.ctxs)
+			for i := 1; i < n; i++ {
+				e.run([]int{i})
+			}
+			// combined arrays in both orders (every 4th render is ConvertBindingContextList(...).Json())
+			var fwd, rev []int
+			for i := 1; i < n; i++ {
+				fwd = append(fwd, i)
+				rev = append([]int{i}, rev...)
+			}
+			e.run(rev)
+			e.run(fwd)
+			e.run(rev)
+			e.run(fwd)
+		})
+	}
+
 	// ---- systematic sweep: every combination of the options the contract mentions
 	//   version v1: filter result kind (none/object/scalar/array/null/string) x keepFullObjectsInMemory x group x
 	//   includeSnapshotsFrom (none / self / the other binding) = 6*2*2*3 = 72 hooks, each with a kubernetes binding,
@@ -1015,6 +1128,20 @@ func runC09(r *Run) {
 				{Kind: "validating", Name: "v1.example.com", Group: group, Inc: inc},
 				{Kind: "mutating", Name: "m1.example.com", Group: group, Inc: inc},
 				{Kind: "conversion", Name: "conv1", Group: group, Inc: inc, From: "v1", To: "v2"}}}
+		// twins: a second schedule binding called "s1" and a second conversion binding called "conv1" (other
+		// crontab / rule), ungrouped, including snapshots exactly when the first one does not; they come
+		// before their namesakes when full objects are dropped, after them otherwise
+		twinInc := []string{"k2"}
+		if inc != nil {
+			twinInc = nil
+		}
+		twinS := c09OtherB{Kind: "schedule", Name: "s1", Inc: twinInc}
+		twinC := c09OtherB{Kind: "conversion", Name: "conv1", Inc: twinInc, From: "v2", To: "v3"}
+		if keep {
+			spec.Others = append(spec.Others, twinS, twinC)
+		} else {
+			spec.Others = append([]c09OtherB{twinS, twinC}, spec.Others...)
+		}
 		e := c09Start(r, c, spec)
 		defer e.close()
 		if e == nil {
@@ -1030,10 +1157,18 @@ func runC09(r *Run) {
 		if !ok {
 			return
 		}
-		e.mkSchedule("s1")
-		e.mkAdmission("validating", "v1.example.com", "uid-1")
-		e.mkAdmission("mutating", "m1.example.com", "uid-2")
-		e.mkConversion("conv1", "v1", "v2", "uid-3")
+		uid := 0
+		for i, o := range spec.Others {
+			uid++
+			switch o.Kind {
+			case "schedule":
+				e.mkSchedule(i)
+			case "conversion":
+				e.mkConversion(i, fmt.Sprintf("uid-%d", uid))
+			default:
+				e.mkAdmission(o.Kind, o.Name, fmt.Sprintf("uid-%d", uid))
+			}
+		}
 		for i := range e.ctxs {
 			e.run([]int{i})
 		}
@@ -1069,7 +1204,7 @@ func runC09(r *Run) {
 		if !ok {
 			return
 		}
-		e.mkSchedule("s1")
+		e.mkSchedule(0)
 		var all []int
 		for i := range e.ctxs {
 			if e.ctxs[i].Type == kemtypes.TypeSynchronization {
@@ -1083,7 +1218,7 @@ func runC09(r *Run) {
 		c.Note("sweep:v0")
 	})
 	r.Exhaust = true
-	r.Extra["exhaustive_scope"] = "option sweep: v1 = 6 filter result kinds x keepFullObjectsInMemory x group x 3 includeSnapshotsFrom shapes (72 hooks with kubernetes/schedule/validating/mutating/conversion/onStartup contexts), v0 = 6 filter kinds x 4 event lists (24 hooks); the cluster histories are sampled, not enumerated"
+	r.Extra["exhaustive_scope"] = "option sweep: v1 = 6 filter result kinds x keepFullObjectsInMemory x group x 3 includeSnapshotsFrom shapes (72 hooks with kubernetes/schedule/validating/mutating/conversion/onStartup contexts, each with a second schedule and a second conversion binding of the same name and the complementary include option, before or after its namesake), v0 = 6 filter kinds x 4 event lists (24 hooks); the cluster histories are sampled, not enumerated"
 
 	n := r.N(300, 10000)
 	r.Cases(200, n, 12, func(c *Case, rng *Rng) { c09Random(r, c, rng) })
@@ -1144,8 +1279,20 @@ func c09Random(r *Run, c *Case, rng *Rng) {
 		}
 		spec.KBs = append(spec.KBs, b)
 	}
-	if rng.Chance(60) {
-		o := c09OtherB{Kind: "schedule", Name: "s1"}
+	// 0-3 schedule bindings; names are drawn from a small pool so that bindings often share one (an unnamed
+	// binding is called "schedule"): legal, each context carries the include list of its own binding
+	nSch := 0
+	if rng.Chance(65) {
+		nSch = 1
+		if rng.Chance(45) {
+			nSch = 2
+			if rng.Chance(35) {
+				nSch = 3
+			}
+		}
+	}
+	for j := 0; j < nSch; j++ {
+		o := c09OtherB{Kind: "schedule", Name: PickOne(rng, []string{"s1", "s1", "s1", "schedule", "schedule", "s2"})}
 		if !v0 {
 			o.Group, o.Inc = PickOne(rng, groups), pickInc()
 		}
@@ -1160,6 +1307,10 @@ func c09Random(r *Run, c *Case, rng *Rng) {
 		}
 		if rng.Chance(35) {
 			spec.Others = append(spec.Others, c09OtherB{Kind: "conversion", Name: "conv1", Group: PickOne(rng, groups), Inc: pickInc(), From: "v1alpha1", To: "v1beta1"})
+			if rng.Chance(40) { // a second conversion binding (another rule of the same CRD), mostly under the same name
+				spec.Others = append(spec.Others, c09OtherB{Kind: "conversion", Name: PickOne(rng, []string{"conv1", "conv1", "conv2"}),
+					Group: PickOne(rng, groups), Inc: pickInc(), From: "v1beta1", To: "v1"})
+			}
 		}
 	}
 	e := c09Start(r, c, spec)
@@ -1261,19 +1412,19 @@ func c09Random(r *Run, c *Case, rng *Rng) {
 				}
 			}
 		case k < 75:
-			for _, o := range spec.Others {
+			for i, o := range spec.Others {
 				if o.Kind == "schedule" {
-					e.mkSchedule(o.Name)
+					e.mkSchedule(i)
 				}
 			}
 		default:
-			for _, o := range spec.Others {
+			for i, o := range spec.Others {
 				uid++
 				switch o.Kind {
 				case "validating", "mutating":
 					e.mkAdmission(o.Kind, o.Name, fmt.Sprintf("uid-%d", uid))
 				case "conversion":
-					e.mkConversion(o.Name, o.From, o.To, fmt.Sprintf("uid-%d", uid))
+					e.mkConversion(i, fmt.Sprintf("uid-%d", uid))
 				}
 			}
 		}
